@@ -31,7 +31,7 @@ MANIFEST = {
             "spheres (3 element pairs x axis directions) at 12 separations from concentric-ish to apart; three "
             "spheres in 6 arrangements; a 5-atom cluster; a hand-built 13-atom dipeptide; a 32-atom fragment of "
             "tests/data/2EQQ.pdb (4 NMR models)} x n_sphere_points {1,2,10,24,100,960} x probe {0,0.14,0.3} x "
-            "change_radii {None,{C:0.2}} x mode {atom,residue} x atom_indices (ALL subsets incl. empty and None for "
+            "change_radii {None,{C:0.2},{C:0.26}} x mode {atom,residue} x atom_indices (ALL subsets incl. empty and None for "
             "<= 5 atoms, a 10-entry menu above) x every contiguous window of 1..3 frames (quick: 2 axis directions; "
             "thorough: 6 directions, the extra pairs Fr-Li and S-H, and 3 rotated copies of every multi-atom structure).  Each call of md.shrake_rupley is compared with an independent "
             "float64 evaluation on the same point set: exact accessible-point count per atom (area compared under a "
@@ -48,7 +48,7 @@ MANIFEST = {
 
 N_POINTS = [1, 2, 10, 24, 100, 960]
 PROBES = [0.0, 0.14, 0.3]
-CHANGE_RADII = [None, {"C": 0.2}]
+CHANGE_RADII = [None, {"C": 0.2}, {"C": 0.26}]   # two overrides of the SAME symbol: a cache keyed on the symbols alone is exposed
 MODES = ["atom", "residue"]
 SEPARATIONS = [0.01, 0.03, 0.06, 0.1, 0.15, 0.2, 0.28, 0.34, 0.45, 0.62, 0.95, 1.3]
 C_TOL = 16           # |dA| <= C_TOL * eps32 * 4 pi R^2 per atom (count*const*R*R in float32: <= 8 roundings)
